@@ -37,8 +37,8 @@ type ClientCfg struct {
 	ALPN    []string `json:"alpn"`
 	Min     uint16   `json:"min"`
 	Max     uint16   `json:"max"`
-	Ciphers int      `json:"ciphers"` // index into cipherSets
-	Curves  int      `json:"curves"`  // index into curveSets
+	Ciphers int      `json:"ciphers"`          // index into cipherSets
+	Curves  int      `json:"curves"`           // index into curveSets
 	Resume  bool     `json:"resume,omitempty"` // the hello of a second connection after a full handshake (ticket / PSK)
 }
 
@@ -152,14 +152,14 @@ type feedConn struct {
 	r io.Reader
 }
 
-func (c *feedConn) Read(p []byte) (int, error)         { return c.r.Read(p) }
-func (c *feedConn) Write(p []byte) (int, error)        { return len(p), nil }
-func (c *feedConn) Close() error                       { return nil }
-func (c *feedConn) LocalAddr() net.Addr                { return &net.TCPAddr{} }
-func (c *feedConn) RemoteAddr() net.Addr               { return &net.TCPAddr{} }
-func (c *feedConn) SetDeadline(time.Time) error        { return nil }
-func (c *feedConn) SetReadDeadline(time.Time) error    { return nil }
-func (c *feedConn) SetWriteDeadline(time.Time) error   { return nil }
+func (c *feedConn) Read(p []byte) (int, error)       { return c.r.Read(p) }
+func (c *feedConn) Write(p []byte) (int, error)      { return len(p), nil }
+func (c *feedConn) Close() error                     { return nil }
+func (c *feedConn) LocalAddr() net.Addr              { return &net.TCPAddr{} }
+func (c *feedConn) RemoteAddr() net.Addr             { return &net.TCPAddr{} }
+func (c *feedConn) SetDeadline(time.Time) error      { return nil }
+func (c *feedConn) SetReadDeadline(time.Time) error  { return nil }
+func (c *feedConn) SetWriteDeadline(time.Time) error { return nil }
 
 var errStop = errors.New("stop after ClientHello")
 
@@ -356,11 +356,11 @@ func scenarios(tier string, yield func(any) bool) {
 func main() {
 	loadMatchers()
 	runner.Main(&runner.Harness{
-		ID:    "C07",
-		Level: "model_checking",
-		Rule: "ClientHellos emitted by crypto/tls for the product of server names {none, a.test, 252 characters, punycode, upper case, sub-sub-domain} x ALPN lists {none,[h2],[h2,http/1.1],[255-byte id],[http/1.1]} x version ranges {1.0-1.3, 1.2, 1.3, 1.2-1.3, 1.0-1.1} x 3 cipher preference lists x 3 curve preference lists, each also as the hello of the same client reconnecting after a full handshake (non-empty session_ticket extension up to TLS 1.2, pre_shared_key + psk_key_exchange_modes in TLS 1.3); each compared field by field (server name, ALPN, versions, cipher suites, curves, signature schemes, point formats) with crypto/tls's own view of the same bytes and through 5 sni/alpn matcher configurations; single-byte mutations {00, FF, +1, -1} at every position of the hellos with default cipher/curve lists (all hellos in thorough), compared whenever crypto/tls still accepts them; proper prefixes (0..8, every 16th, last 8; all in thorough) must be undecided; all 255 other record types must be rejected",
+		ID:          "C07",
+		Level:       "model_checking",
+		Rule:        "ClientHellos emitted by crypto/tls for the product of server names {none, a.test, 252 characters, punycode, upper case, sub-sub-domain} x ALPN lists {none,[h2],[h2,http/1.1],[255-byte id],[http/1.1]} x version ranges {1.0-1.3, 1.2, 1.3, 1.2-1.3, 1.0-1.1} x 3 cipher preference lists x 3 curve preference lists, each also as the hello of the same client reconnecting after a full handshake (non-empty session_ticket extension up to TLS 1.2, pre_shared_key + psk_key_exchange_modes in TLS 1.3); each compared field by field (server name, ALPN, versions, cipher suites, curves, signature schemes, point formats) with crypto/tls's own view of the same bytes and through 5 sni/alpn matcher configurations; single-byte mutations {00, FF, +1, -1} at every position of the hellos with default cipher/curve lists (all hellos in thorough), compared whenever crypto/tls still accepts them; proper prefixes (0..8, every 16th, last 8; all in thorough) must be undecided; all 255 other record types must be rejected",
 		Assumptions: []string{"resumption hellos come from one real handshake against crypto/tls's server with an Ed25519 certificate (TLS 1.2 ticket / TLS 1.3 PSK); their random parts differ from run to run, failures carry the exact record", "a ClientHello fragmented over several TLS records is not generated (crypto/tls clients never do)"},
-		Scenarios: scenarios,
+		Scenarios:   scenarios,
 		Run: func(tier string, scAny any, rep *runner.Report) {
 			sc := scAny.(*Scn)
 			rep.Scenarios++
